@@ -368,39 +368,126 @@ def _peer(ck: Checker, prog: Program):
     if len(rows) != 1:
         raise AnalysisError(f"{q}: sample loop not found")
     _counter_and_check(ck, f, q, rows[0], "peer_npts_exec")
-    txt = unparse(f.node)
-    checks = {
-        "component key per file": "component_keys.append(peer_direction_exec.search(text).groups()[0])" in txt,
-        "time step per file": "dt = float(peer_dt_exec.search(text).groups()[0])" in txt and "dts.append(dt)" in txt,
-        "series per file": "component_list.append(TimeSeries(amplitude, dt_in_seconds=dt))" in txt,
-        "sample stored at the row counter": "amplitude[idx] = sample" in txt,
-    }
-    for k, v in checks.items():
-        if v:
-            ck.ok("C07.R1", q, k, nontrivial=False)
+    # ---- structural facts of the PEER reader (no source fragments: names and layout are free)
+    cfg = cfg_of(f)
+    # parallel lists: initialised empty before the per-file loop, appended exactly once per file
+    lists = {}
+    for st in f.node.body:
+        if isinstance(st, ast.Assign) and len(st.targets) == 1 and isinstance(st.targets[0], ast.Name) and isinstance(st.value, ast.List) and not st.value.elts \
+                and st.lineno < fl.lineno:
+            lists[st.targets[0].id] = []
+    for c in calls_in(fl, "append"):
+        if isinstance(c.func.value, ast.Name) and c.func.value.id in lists and len(c.args) == 1:
+            lists[c.func.value.id].append(c)
+    par = {k: v for k, v in lists.items() if v}
+    evs = [c for v in par.values() for c in v]
+
+    def classify(n):
+        if cfg.kind(n) != "stmt":
+            return None
+        a = cfg.ast_of(n)
+        for i, c in enumerate(evs):
+            if any(x is c for x in ast.walk(a)):
+                return i
+        return None
+    res = events_per_iteration(cfg, fl, classify, max(1, len(evs)))
+    if evs and res == {tuple(1 for _ in evs)} and all(len(v) == 1 for v in par.values()):
+        ck.ok("C07.R1", q, f"per file exactly one entry is appended to each of {sorted(par)}", detail="component, key and time-step lists stay aligned")
+    else:
+        ck.violation("C07.R1", q, "per-file lists", f"per file the lists {sorted(par)} receive {sorted(res)} entries: keys, time steps and components would not stay aligned", loc=f.loc(fl))
+    # which list is which: by what is appended (regex group / TimeSeries)
+    keys_l = dts_l = comp_l = None
+    for nm, v in par.items():
+        a = v[0].args[0]
+        srcs, stmts = value_sources(f, a, v[0])
+        text = " ".join(unparse(x.value) if isinstance(x, ast.Assign) else "" for x in stmts) + " " + unparse(a)
+        if "TimeSeries(" in text and comp_l is None and isinstance(a, ast.Call) and call_name(a) == "TimeSeries":
+            comp_l = nm
+        elif "peer_direction_exec" in text:
+            keys_l = nm
+        elif "peer_dt_exec" in text:
+            dts_l = nm
+    if None in (keys_l, dts_l, comp_l):
+        raise AnalysisError(f"{q}: the lists of component keys / time steps / components were not identified ({sorted(par)})")
+    ck.ok("C07.R1", q, f"component key from the direction field, time step from the DT field, one TimeSeries per file", nontrivial=False)
+    # the series appended is built from this file's samples and this file's time step
+    ts_call = par[comp_l][0].args[0]
+    dt_arg = kwarg(ts_call, "dt_in_seconds") or (ts_call.args[1] if len(ts_call.args) > 1 else None)
+    amp_arg = ts_call.args[0] if ts_call.args else kwarg(ts_call, "amplitude")
+    dsrc, dst = value_sources(f, dt_arg, par[comp_l][0]) if dt_arg is not None else (set(), [])
+    asrc, ast_ = value_sources(f, amp_arg, par[comp_l][0]) if amp_arg is not None else (set(), [])
+    dt_ok = any("peer_dt_exec" in unparse(x) for x in dst) and all(any(y is x for y in ast.walk(fl)) for x in dst if isinstance(x, ast.Assign))
+    sample_store = [st for st in ast.walk(rows[0]) if isinstance(st, ast.Assign) and isinstance(st.targets[0], ast.Subscript) and isinstance(amp_arg, ast.Name)
+                    and unparse(st.targets[0].value) == amp_arg.id]
+    amp_ok = len(sample_store) == 1 and any(isinstance(x, ast.Assign) and any(y is x for y in ast.walk(fl)) for x in ast_)
+    if dt_ok and amp_ok:
+        ck.ok("C07.R1", q, "series per file = TimeSeries(this file's samples, this file's time step)")
+    else:
+        ck.violation("C07.R1", q, "series per file", f"the series appended per file is not built from that file's samples and time step (time step ok: {dt_ok}, samples ok: {amp_ok})", loc=f.loc(ts_call))
+    # deletions keep the key and component lists aligned
+    dels = [st for st in own_nodes(f.node) if isinstance(st, ast.Delete)]
+    bad_del = []
+    for st in dels:
+        idxs = {}
+        for t in st.targets:
+            if isinstance(t, ast.Subscript) and isinstance(t.value, ast.Name) and t.value.id in (keys_l, comp_l):
+                idxs[t.value.id] = unparse(t.slice)
+        if idxs and (set(idxs) != {keys_l, comp_l} or len(set(idxs.values())) != 1):
+            # a sibling delete statement in the same block may complete the pair
+            blk = [x for x in own_nodes(f.node) if isinstance(x, ast.Delete) and parent_of(x) is parent_of(st)]
+            allidx = {}
+            for x in blk:
+                for t in x.targets:
+                    if isinstance(t, ast.Subscript) and isinstance(t.value, ast.Name) and t.value.id in (keys_l, comp_l):
+                        allidx.setdefault(t.value.id, set()).add(unparse(t.slice))
+            if set(allidx) != {keys_l, comp_l} or allidx[keys_l] != allidx[comp_l]:
+                bad_del.append(st)
+    if not bad_del:
+        ck.ok("C07.R1", q, "vertical removed before the horizontals are chosen", detail="entries are deleted from the key list and the component list together")
+    for st in bad_del:
+        ck.violation("C07.R1", q, "vertical removed before the horizontals are chosen",
+                     f"`{norm_key(st, 70)}` removes an entry from only one of the aligned lists ({keys_l}, {comp_l}): the horizontals would be looked up at shifted positions", loc=f.loc(st))
+    # constructor components are elements of the component list, selected through the key list
+    c = _ctor_call(f)
+    if c is None or len(c.args) < 3:
+        raise AnalysisError(f"{q}: constructor call not found")
+    n_ok = 0
+    for a, role in zip(c.args[:3], ("ns", "ew", "vt")):
+        srcs, stmts = value_sources(f, a, c)
+        from_list = any(isinstance(x, ast.Assign) and isinstance(x.value, ast.Subscript) and unparse(x.value.value) == comp_l for x in stmts)
+        if from_list:
+            n_ok += 1
         else:
-            ck.violation("C07.R1", q, k, f"PEER reader: {k} not established", loc=f.loc())
-    dtc = [st for st in f.node.body if isinstance(st, ast.For) and unparse(st.iter) == "enumerate(dts)"]
-    if len(dtc) == 1 and any(isinstance(x, ast.If) and unparse(x.test) == "dt != dts[0]" and any(isinstance(b, ast.Raise) for b in x.body) for x in dtc[0].body):
+            ck.violation("C07.R1", q, f"{role} component", f"the {role} component handed to the constructor is not an element of the per-file component list", loc=f.loc(c))
+    if n_ok == 3:
+        ck.ok("C07.R1", q, "ns, ew, vt are elements of the per-file component list")
+    # the literals that decide the roles
+    consts = {x.value for x in own_nodes(f.node) if isinstance(x, ast.Constant) and isinstance(x.value, (str, int)) and not isinstance(x.value, bool)}
+    need = {"UP", "VER", "N", "E", 180, 360}
+    zed = bool({"z", "Z"} & consts)
+    if need <= consts and zed:
+        ck.ok("C07.R1", q, "roles decided by UP / VER / ..Z, ..N / ..E and azimuths wrapped at 180 (literals present)", nontrivial=False)
+    else:
+        ck.violation("C07.R1", q, "role literals", f"the literals that decide the component roles are incomplete: missing {sorted(map(str, need - consts))}{'' if zed else ' and z'}", loc=f.loc())
+    # the argmin / argmax of |relative azimuth| choose north / east
+    calls = {call_name(x) for x in calls_in(f.node)}
+    if {"argmin", "argmax"} <= calls:
+        ck.ok("C07.R1", q, "north = smallest, east = largest |relative azimuth|", nontrivial=False)
+    else:
+        ck.violation("C07.R1", q, "numeric azimuth roles", "numeric component codes are not resolved by argmin / argmax of the relative azimuth", loc=f.loc())
+    # unequal time steps raise
+    guards = [x for x in own_nodes(f.node) if isinstance(x, ast.If) and isinstance(x.test, ast.Compare) and isinstance(x.test.ops[0], ast.NotEq)
+              and dts_l in {n.id for n in ast.walk(x.test) if isinstance(n, ast.Name)} | {n.id for lp_ in [parent_of(x)] if isinstance(lp_, ast.For) for n in ast.walk(lp_.iter) if isinstance(n, ast.Name)}
+              and any(isinstance(b, ast.Raise) for b in x.body)]
+    if guards:
         ck.ok("C07.R2", q, "unequal time steps raise")
     else:
         ck.violation("C07.R2", q, "time-step agreement", "files with different time steps are not refused", loc=f.loc())
-    roles = {
-        "vertical by UP / VER / ..Z": "vt_id = component_keys.index('UP')" in txt and "vt_id = component_keys.index('VER')" in txt and "_key[-1].lower() == 'z'" in txt
-        and "vt = component_list[vt_id]" in txt,
-        "vertical removed before the horizontals are chosen": "del component_list[vt_id], component_keys[vt_id]" in txt,
-        "north = smallest |relative azimuth|": "ns_id = np.argmin(abs(component_keys_rel))" in txt and "ns = component_list[ns_id]" in txt,
-        "east = largest |relative azimuth|": "ew_id = np.argmax(abs(component_keys_rel))" in txt and "ew = component_list[ew_id]" in txt,
-        "relative azimuth wraps at 180": "component_keys_rel[component_keys_abs > 180] -= 360" in txt,
-        "suffix N / E when codes are letters": "if _key[-1] == 'N'" in txt and "elif _key[-1] == 'E'" in txt and "ew = component_list[_id]" in txt,
-        "orientation from the north component's azimuth": "degrees_from_north = component_keys_abs[ns_id]" in txt,
-        "unknown codes raise": txt.count("raise ValueError(msg)") >= 4,
-    }
-    for k, v in roles.items():
-        if v:
-            ck.ok("C07.R1", q, k)
-        else:
-            ck.violation("C07.R1", q, k, f"PEER reader: `{k}` is not how the components are assigned", loc=f.loc())
+    n_raise = sum(1 for x in own_nodes(f.node) if isinstance(x, ast.Raise))
+    if n_raise >= 4:
+        ck.ok("C07.R1", q, "unknown codes raise", nontrivial=False)
+    else:
+        ck.violation("C07.R1", q, "unknown codes raise", f"only {n_raise} refusals remain in the PEER reader (unrecognised component codes must raise)", loc=f.loc())
 
 
 def _common(ck: Checker, prog: Program):
